@@ -294,12 +294,17 @@ def run_shared(desc, ctx):
     from cflib.crazyflie import Crazyflie
     rnd = random.Random(desc['seed'])
     profs = [gen.profile(desc['seed'] + 31 * i, rnd.randint(2, 9), rnd.randint(2, 9), proto=10) for i in range(2)]
+    if desc['seed'] % 2 == 0:
+        # tables of the same sizes: both downloads end - and both tables are stored - at the same moment
+        nl, npar = rnd.randint(2, 9), rnd.randint(2, 9)
+        profs = [gen.profile(desc['seed'] + 31 * i, nl, npar, proto=10) for i in range(2)]
     devs = [simcf.SimCF(p) for p in profs]
     base = tempfile.mkdtemp(prefix='vf_c11s_')
     rw = os.path.join(base, 'rw')
     uris = ['sim://c11s%d' % i for i in range(2)]
+    lat = rnd.choice((0.0, 0.001))
     for u, d in zip(uris, devs):
-        simlink.SIMS[u] = simlink.LinkSpec(d, latency=rnd.choice((0.0, 0.001)))
+        simlink.SIMS[u] = simlink.LinkSpec(d, latency=lat if desc['seed'] % 2 == 0 else rnd.choice((0.0, 0.001)))
     ob = {'tables': {}}
 
     def fn(s):
@@ -338,8 +343,10 @@ def run_shared(desc, ctx):
             ob['tables'][('later', i)] = (oracles.snapshot_toc(cf.log.toc), oracles.snapshot_toc(cf.param.toc))
             cf.close_link()
     try:
+        # (statements of the cache's store and fetch functions are pre-empted more often)
         _, abort, sch = harness.sched_case(fn, seed=desc['seed'], policy='random', line_p=(0.0, 0.1, 0.3)[desc['seed'] % 3], horizon=2000.0,
-                                           max_steps=12_000_000)
+                                           max_steps=12_000_000, line_focus=('insert', 'fetch', '_toc_fetch_finished'),
+                                           line_focus_p=0.5 if desc['seed'] % 3 else 0.0)
         ctx.evals()
         ctx.count('mon.two_firmwares_connecting_at_once_on_one_cache_directory')
         ctx.count('mon.statement_level_preemption_points', sch.line_points)
